@@ -69,20 +69,24 @@ func vpPostReadIndexLeader(r *raft, pre vpRec, p2 vpPre2, rp vpReadPre, m *pb.Me
 	singleton := r.trk.IsSingleton()
 	local := vpOr(m.GetFrom() == None, m.GetFrom() == r.id)
 	reqBlob := vpBlobID(m.GetEntries()[0].GetData())
-	if singleton {
-		// R2(b): the shortcut without a quorum round is only sound when the sole
-		// voter is this node and it has committed an entry of its own term
-		_, selfVoter := r.trk.Voters[0][r.id]
-		vpAssert(len(out) == 1, "R2/singleton-answers-at-once")
+	if ro.option != ReadOnlySafe {
+		return // lease-based reads are outside C11
+	}
+	_, selfVoter := r.trk.Voters[0][r.id]
+	selfSole := singleton && selfVoter
+	// R2(b): answering without a quorum round is only sound when the sole voter
+	// is this node and it has committed an entry of its own term
+	if len(out) > 0 {
+		vpAssert(selfSole, "R2b/singleton-shortcut-only-if-sole-voter-is-self")
+		vpAssert(rp.inTerm, "R2b/singleton-shortcut-only-after-own-term-commit")
 		for _, o := range out {
 			vpAssert(vpAnd(o.index == rp.committed, o.blob == reqBlob), "R2/singleton-answer-is-commit-index")
 		}
-		vpAssert(selfVoter, "R2b/singleton-shortcut-only-if-sole-voter-is-self")
-		vpAssert(rp.inTerm, "R2b/singleton-shortcut-only-after-own-term-commit")
-		return
 	}
-	if ro.option != ReadOnlySafe {
-		return // lease-based reads are outside C11
+	if selfSole {
+		vpAssert(vpImplies(rp.inTerm, len(out) == 1), "R2/singleton-answers-at-once")
+		vpAssert(vpImplies(!rp.inTerm, vpAnd(len(out) == 0, len(r.pendingReadIndexMessages) == p2.nPendReads+1)), "R1/postponed-until-own-term-commit")
+		return
 	}
 	// R1 admission
 	postponed := !rp.inTerm
@@ -179,8 +183,15 @@ func vpPostHeartbeatRespLeader(r *raft, pre vpRec, p2 vpPre2, rp vpReadPre, m *p
 	if released > 0 {
 		vpAssert(vpJointMaj(&r.trk, ackGE(ro.confirmedReads)), "R2/released-only-with-quorum-of-acks")
 	}
+	// (only when the sender is a tracked peer: otherwise the step is a no-op)
+	known := false
+	for id := uint64(1); id <= 4; id++ {
+		if r.trk.Progress[id] != nil {
+			known = vpOr(known, from == id)
+		}
+	}
 	if len(ro.unconfirmedReads) > 0 {
-		vpAssert(!vpJointMaj(&r.trk, ackGE(ro.confirmedReads+1)), "R2/everything-confirmed-is-released")
+		vpAssert(vpImplies(known, !vpJointMaj(&r.trk, ackGE(ro.confirmedReads+1))), "R2/everything-confirmed-is-released")
 	}
 	// R3: each answer is the request's own recorded index and context, in order
 	nl, nr := 0, 0
